@@ -8,7 +8,7 @@ OUT=${DEV_OUT:-/var/tmp/goatsim}
 HS=${HARNESS_SRC:-/verif}   # HARNESS_SRC=<dir with harness/ and simrt/> builds a private copy of the machinery
 if [ "${1:-}" = "--repo" ]; then
   shift
-  (cd /verif/tools/simrewrite && go build -o /var/tmp/simrewrite .) || exit 2
+  (cd ${HS}/tools/simrewrite && go build -o /var/tmp/simrewrite .) || exit 2
   rm -rf $D; mkdir -p $D/verifsim
   (cd $SRC && find . -path ./.git -prune -o -type f -print0 | grep -zv '^\./\.git/' | xargs -0 cp --parents -t $D)
   cp -r $HS/simrt $D/verifsim/simrt
